@@ -9,6 +9,17 @@ from .common import LogModel, run_fn, ret_paths, variant_of, argval, argstr, sea
 ADAPTERS = r"Iterator>::(skip|take|filter|step_by|rev|skip_while|take_while|chain|zip)\b"
 
 
+def is_map_size(v):
+    """The value is the size of the id map itself — through casts and the id newtype only, not a value computed from it
+    (`len() - 1` gives the second closure the id of the start state)."""
+    n = 0
+    while n < 8 and (v[0] == "cast" or (v[0] == "adt" and str(v[1]).startswith("internal::ids::") and len(v[3]) == 1)
+                     or (v[0] == "app" and re.search(r"internal::ids::\w+::new$|From<\w+>>::from$|Into<.*>>::into$", str(v[1])) and len(v[2]) == 1)):
+        v = v[2] if v[0] == "cast" else (v[3][0] if v[0] == "adt" else v[2][0])
+        n += 1
+    return v[0] == "app" and re.search(r"HashMap::<.*>::len$", str(v[1])) is not None
+
+
 def analyze(ctx, want):
     F = ctx.facts
 
@@ -113,7 +124,7 @@ def analyze(ctx, want):
                     id_cases.add("new")
                     x = newins[-1][3]
                     x = ex.deref_val(p, x) if x[0] == "ref" else x
-                    sized = S.mentions(x, lambda y: y[0] == "app" and re.search(r"HashMap::<.*>::len$", str(y[1])) is not None)
+                    sized = is_map_size(x)
 
                     def bare(v):
                         while v[0] in ("cast",) or (v[0] == "adt" and str(v[1]).startswith("internal::ids::") and len(v[3]) == 1):
@@ -125,7 +136,7 @@ def analyze(ctx, want):
                 elif pbs:
                     id_cases.add("new")
                     x = argval(pbs[-1], 1)
-                    sized = S.mentions(x, lambda y: y[0] == "app" and re.search(r"HashMap::<.*>::len$", str(y[1])) is not None)
+                    sized = is_map_size(x)
                     def bare(v):
                         while v[0] in ("cast",) or (v[0] == "adt" and str(v[1]).startswith("internal::ids::") and len(v[3]) == 1):
                             v = v[2] if v[0] == "cast" else v[3][0]
